@@ -77,7 +77,7 @@ def _p(*a, **k):
 
 
 _p('C01', 'exploration',
-   [Part('decl', {}, quick=48000, thorough=1500000)],
+   [Part('decl', {}, quick=36000, thorough=1500000)],
    rule='one case = one seeded declaration history (4-25 ops + gc/drop/perm faults) over a generated interface DAG, '
         'class DAG and instances, checked against DeclModel bounds after every op; distinct_nontrivial = number of '
         'distinct (model lower bound, model upper bound, reported set) abstract states observed for classes and objects',
